@@ -88,6 +88,13 @@ fn ackers(net: &Net, writer: usize, target: &[u8; 20], log0: usize, done_ns: u64
 
 #[allow(clippy::too_many_arguments)]
 pub fn trial(net: &mut Net, b: u64, kind: &'static str, writer: usize, reader: usize, crash: &[usize], concurrent: &str, rng: &mut Rng) -> Value {
+    trial_opts(net, b, kind, writer, reader, crash, concurrent, rng, false)
+}
+
+/// `polled`: the reader already looked the key up (before it existed) and a server joined afterwards: the get follows within
+/// the lifetime of the reader's cached lookup, and the reader contacts the whole network once more before the crashes.
+#[allow(clippy::too_many_arguments)]
+pub fn trial_opts(net: &mut Net, b: u64, kind: &'static str, writer: usize, reader: usize, crash: &[usize], concurrent: &str, rng: &mut Rng, polled: bool) -> Value {
     let waddr = net.sim.nodes[writer].addr;
     let st = make_item(kind, b, waddr);
     let log0 = net.sim.log.len();
@@ -97,13 +104,20 @@ pub fn trial(net: &mut Net, b: u64, kind: &'static str, writer: usize, reader: u
     let put_done = put.done_ns().unwrap_or(net.sim.now_ns());
     let acks = ackers(net, writer, &st.target, log0, put_done);
     // the get may come right away, a minute later, or after several maintenance rounds
-    let delay_ms = match b % 5 {
+    let delay_ms = match if polled { 0 } else { b % 5 } {
         0 | 1 => rng.range(100, 3000),
         2 => rng.range(46_000, 70_000),
         3 => rng.range(330_000, 400_000),
         _ => rng.range(930_000, 1_000_000),
     };
     net.sim.run_for(delay_ms);
+    if polled {
+        // unrelated traffic: the reader looks another target up and thereby hears from every server, the late joiner included
+        let mut other = net.sim.call_get(reader, GetKind::Immutable, crypto::sha1(&[b as u8, 0xAA]), "unrelated");
+        net.sim.poke(reader);
+        net.sim.run_calls(&mut [&mut other], 60_000);
+        net.sim.run_for(500);
+    }
     for &c in crash {
         net.sim.crash(c);
     }
@@ -186,6 +200,31 @@ pub fn run(args: &Args) -> i32 {
             out.line(&ev);
             b += 1;
         }
+    }
+    // the reader polled the key before it existed (its lookup is cached); a server joins afterwards, the write is acknowledged
+    // by it too, and then every node the reader's cached lookup knows crashes: the late joiner alone still serves the value
+    for (i, &sv) in (if thorough { vec![1usize, 2, 3, 4, 6, 9, 14, 19] } else { vec![1usize, 3, 6, 12] }).iter().enumerate() {
+        if only.is_some() && only != Some(b) {
+            b += 1;
+            continue;
+        }
+        let spec = NetSpec { servers: sv, clients: 2, plan: "private".into(), join: "sequential".into(), dead_bootstrap: 0, seed: seed ^ (5000 + i as u64) };
+        let mut net = build(&spec);
+        let mut rr = Rng::new(seed ^ (777 + i as u64));
+        let kind = kinds[i % 6];
+        let writer = net.clients[0];
+        let reader = net.clients[1];
+        let st = make_item(kind, b, net.sim.nodes[writer].addr);
+        let mut poll = net.sim.call_get(reader, st.get.clone(), st.target, "poll");
+        net.sim.poke(reader);
+        net.sim.run_calls(&mut [&mut poll], 60_000);
+        let late = net.sim.add_node(NodeOpts::server(node_ip(&spec.plan, sv + 10), &net.boot));
+        net.sim.run_for(4000);
+        let crash: Vec<usize> = net.servers.clone();
+        net.servers.push(late);
+        let ev = trial_opts(&mut net, b, kind, writer, reader, &crash, "polled", &mut rr, true);
+        out.line(&ev);
+        b += 1;
     }
     // larger networks: success rate over several keys, no crashes
     let big: Vec<usize> = if thorough { vec![50, 100, 200, 300] } else { vec![50] };
